@@ -317,6 +317,17 @@ def exit_agreement(ctx, log, ns, label, payload_fn):
         ctx.hit('exit_agreement.fired')
 
 
+def make_comp(seed, k):
+    rng = gen.rng_for('C12comp', seed, k)
+    comp = workloads.Composition(rng, force_all_actions=True)
+    if k % 3 == 0:  # make sure both exit parts are present in a share of the compositions
+        if Exit not in comp.types:
+            comp.types.append(Exit)
+        comp.rewards.append({'name': 'reach_exit', 'reward_on': workloads.rfloat(rng) + 7.0, 'reward_off': workloads.rfloat(rng)})
+        comp.terminating = {'name': 'reduce_any', 'terminating_functions': [comp.terminating, {'name': 'reach_exit'}]}
+    return comp, rng
+
+
 def drive_compositions(ctx, n, log):
     for k in range(n):
         if not ctx.mine(k):
@@ -324,13 +335,7 @@ def drive_compositions(ctx, n, log):
         if ctx.out_of_time(0.6):
             ctx.add('compositions_skipped_for_time')
             continue
-        rng = gen.rng_for('C12comp', ctx.seed, k)
-        comp = workloads.Composition(rng, force_all_actions=True)
-        if k % 3 == 0:  # make sure both exit parts are present in a share of the compositions
-            if Exit not in comp.types:
-                comp.types.append(Exit)
-            comp.rewards.append({'name': 'reach_exit', 'reward_on': workloads.rfloat(rng) + 7.0, 'reward_off': workloads.rfloat(rng)})
-            comp.terminating = {'name': 'reduce_any', 'terminating_functions': [comp.terminating, {'name': 'reach_exit'}]}
+        comp, rng = make_comp(ctx.seed, k)
         types = type_map()
         triples = make_triples(ctx, comp, rng, ctx.pick(20, 40))
         component_checks(ctx, comp, types, triples)
@@ -353,7 +358,7 @@ def drive_compositions(ctx, n, log):
                 st = state
 
                 def payload(st=st, action=action, k=k):
-                    return {'comp_seed': k, 'state': enc.state_to_json(st), 'action': action.name}
+                    return {'comp_seed': [ctx.seed, k], 'state': enc.state_to_json(st), 'action': action.name}
                 res = spied_step(ctx, env, state, action, f'composition {comp.id}', payload)
                 if res is None:
                     break
@@ -476,8 +481,10 @@ def replay(ctx, kind, payload):
                 full = {'name': 'reduce_sum', 'reward_functions': data['reward_functions']}
                 term = data['terminating_function']
             else:
-                rng = gen.rng_for('C12comp', 0, payload['comp_seed'])
-                return
+                comp, _ = make_comp(*payload['comp_seed'])
+                env = comp.build(lambda rng=None: state)
+                full = {'name': 'reduce_sum', 'reward_functions': comp.rewards}
+                term = comp.terminating
             env._reward_function = Spy(env._reward_function)
             env._termination_function = Spy(env._termination_function)
             env.set_seed(0)
